@@ -238,6 +238,51 @@ def run(ctx):
                 # no edge dimension: face_face can still be derived through derived edges
                 exprs.append('([' + '; '.join(e_model) + '], true, ([] : list table))')
                 plans.append((case, obs, [], [], [], None))
+    # ---- the tables a user was handed stay what they were: deriving further tables of the same mesh, or the tables of another
+    # mesh of the same size, changes neither them nor the dataset
+    def tables_of(topo_):
+        out_ = {}
+        for nm_ in ('face_node_array', 'edge_node_array', 'face_edge_array', 'edge_face_array', 'face_face_array'):
+            r_ = attempt(lambda: getattr(topo_, nm_))
+            if r_[0] == 'ok':
+                out_[nm_] = r_[1]
+        return out_
+    for rep_ in range(2 if quick else 6):
+        pair = []
+        for which_ in (0, 1):
+            # two meshes of four quadrilaterals each: a 2 x 2 block and a 1 x 4 strip; edges supplied with the higher node first
+            mesh_ = gen.lattice_mesh(rng, 2, 2, variety=False, drop=False) if which_ == 0 else gen.lattice_mesh(rng, 4, 1, variety=False, drop=False)
+            dm_ = gen.ugrid(rng, mesh=mesh_, invalid=False, supplied={'edge_node'}, edge_dim_declared=True, start_index=0, fill='attr', transposed=False)
+            en_name = 'Mesh2_edge_nodes'
+            if en_name in dm_.ds:
+                a_ = dm_.ds[en_name]
+                dm_.ds[en_name] = (a_.dims, a_.values[:, ::-1].copy(), a_.attrs)      # (high, low) rows: legal, an edge has no direction
+            pair.append(dm_)
+        kept = []
+        for dm_ in pair:
+            before_ = dm_.ds.copy(deep=True)
+            with warnings.catch_warnings():
+                warnings.simplefilter('ignore')
+                topo_ = dm_.ds.ems.topology
+                first_en = attempt(lambda: numpy.ma.filled(numpy.ma.asarray(topo_.edge_node_array), -1).copy())
+                tabs_ = tables_of(topo_)
+                copies_ = {k_: numpy.ma.filled(numpy.ma.asarray(v_), -1).copy() for k_, v_ in tabs_.items()}
+            tcase = {'mesh_faces': dm_.spec['faces'], 'label': dm_.spec['label'], 'what': 'tables stay as handed out'}
+            ctx.case((dm_.spec['label'], 'tables stay', rep_), True)
+            ctx.count('tables handed out stay what they were')
+            if first_en[0] == 'ok' and 'edge_node_array' in copies_ and not numpy.array_equal(first_en[1], numpy.ma.filled(numpy.ma.asarray(topo_.edge_node_array), -1)):
+                ctx.report('property', 'edge_node_array changed after the other tables of the same mesh were derived: supplied '
+                           f'{first_en[1].tolist()}, now {numpy.ma.filled(numpy.ma.asarray(topo_.edge_node_array), -1).tolist()}', tcase)
+            elif not dm_.ds.identical(before_):
+                ctx.report('property', 'deriving the tables of the mesh modified the dataset', tcase)
+            kept.append((dm_, tabs_, copies_, tcase))
+        # after the second mesh was processed the tables handed out for the first one are still its tables
+        dm_, tabs_, copies_, tcase = kept[0]
+        for k_, v_ in tabs_.items():
+            if not numpy.array_equal(numpy.ma.filled(numpy.ma.asarray(v_), -1), copies_[k_]):
+                ctx.report('property', f'{k_} handed out for one mesh changed when another mesh of the same size was processed: '
+                           f'{copies_[k_].tolist()} became {numpy.ma.filled(numpy.ma.asarray(v_), -1).tolist()}', tcase)
+                break
     model = coq_eval_sharded(['Base.Index', 'Base.ListX', 'Model.Topology'], exprs, shard=10, workers=14)
     ctx.leg('coq_eval_cases', len(exprs))
     # counts of every magnitude as well (the fill gains a digit at each power of ten)
